@@ -43,6 +43,10 @@ def check(repo, col, tier):
     from . import c19 as _c19
     col.rule("R-C08-recs", "recordings are (rec_index, state) pairs with unique row labels; a view deletes exactly its own", 2)
     _c19.recordings_matching(repo, col, "R-C08-recs")
+    # an input given through a group lands once on every member: a group lists each compartment once (shared with C11/C19/C20)
+    from . import c11 as _c11g
+    col.rule("R-C08-groups", "groups hold sorted, unique row labels", 2)
+    _c11g.group_normal_form(repo, col, "R-C08-groups")
     col.rule("R-C08-rows", "one row of input values per row index", 4)
     input_rows(repo, col, "R-C08-rows")
     externals_in_view(repo, col, "R-C08-rows")
